@@ -80,7 +80,8 @@ class C15(Check):
             if vt in ('radius', 'conic'):
                 cand = [k for k in range(1, K + 1) if spec['surfs'][k - 1]['R'] != GL.INF]
             elif vt == 'thickness':
-                cand = list(range(1, K))           # the last gap is left to the compensator
+                # any gap but the last (left to the compensator); the object distance too when it is finite
+                cand = ([0] if spec['obj']['t'] != GL.INF else []) + list(range(1, K))
             elif vt == 'index':
                 cand = [k for k in range(1, K + 1) if spec['surfs'][k - 1]['mat']['kind'] == 'ideal']
                 kw['wavelength'] = o.primary_wavelength
@@ -109,6 +110,32 @@ class C15(Check):
             out.append((vt, kw, nominal, samp, span, pd_['steps'], pd_['seed']))
         return out
 
+    @staticmethod
+    def write_into_spec(spec, vt, kw, val):
+        from vf.gen.simple import glass
+        k = kw['surface_number']
+        q = spec['surfs'][k - 1] if k >= 1 else None
+        if vt == 'radius':
+            q['R'] = val
+        elif vt == 'conic':
+            q['k'] = val
+        elif vt == 'thickness':
+            if k == 0:
+                spec['obj']['t'] = val
+            else:
+                q['t'] = val
+        elif vt == 'index':
+            q['mat'] = glass(val)
+        elif vt == 'tilt':
+            q['r' + kw['axis']] = val
+        elif vt == 'decenter':
+            q['d' + kw['axis']] = val
+        elif vt == 'asphere_coeff':
+            q['coef'] = list(q['coef'])
+            q['coef'][kw.get('coeff_number', 0)] = val
+        else:
+            raise ValueError(vt)
+
     def make_sampler(self, samp, nominal, span, steps, seed, vt, mode):
         from optiland.tolerancing.perturbation import ScalarSampler, RangeSampler, DistributionSampler
         if samp == 'range':
@@ -126,7 +153,7 @@ class C15(Check):
             return DistributionSampler('normal', seed=seed, loc=nominal, scale=span / 2)
         return DistributionSampler('uniform', seed=seed, low=nominal - span, high=nominal + span)
 
-    def setup(self, case, spec, with_perts=True):
+    def setup(self, case, spec, with_perts=True, targets=None):
         from optiland.tolerancing.core import Tolerancing
         o = build(spec)
         K = len(spec['surfs'])
@@ -138,6 +165,11 @@ class C15(Check):
         for od in case['operands']:
             t, data = self.operand_data(od, o, K)
             tol.add_operand(t, data)
+        if targets is not None:
+            # operands added to an already perturbed lens would take the perturbed values as their targets; the
+            # compensation aims at the nominal values
+            for op, tg in zip(tol.operands, targets):
+                op.target = tg
         plan = self.plan(case, spec, o, case['mode'])
         if with_perts:
             for (vt, kw, nominal, samp, span, steps, seed) in plan:
@@ -172,6 +204,7 @@ class C15(Check):
             out.cls('no_applicable_perturbation')
             return
         nominal_ops = [float(np.ravel(v)[0]) for v in tol.evaluate()]
+        targets0 = [op.target for op in tol.operands]
         if not all(map(math.isfinite, nominal_ops)):
             out.cls('nominal_operand_undefined')
             return
@@ -206,19 +239,21 @@ class C15(Check):
         rows = df.to_dict('records')
         has_comp = case['comp'] != 'none' and tol.compensator.has_variables
         for ri, row in enumerate(rows[:8]):
-            twin, ttol, _ = self.setup(case, spec, with_perts=False)
             applied = []
             if case['mode'] == 'sensitivity':
                 applied = [(row['perturbation_type'], row['perturbation_value'])]
             else:
                 applied = [(k, row[k]) for k in pert_names if k in row]
+            # the fresh copy: the nominal prescription with the recorded values written into it, built from scratch
+            # (not brought there through the library's own setters, which the run itself uses)
+            pspec = copy.deepcopy(spec)
             for pname, val in applied:
                 if pname not in pert_names:
                     out.fail('row_names_a_known_perturbation', name=pname)
                     continue
                 vt, kw, nominal = pert_names[pname]
-                with contextlib.redirect_stdout(io.StringIO()):
-                    Variable(twin, vt, apply_scaling=False, **kw).update(val)
+                self.write_into_spec(pspec, vt, kw, float(val))
+            twin, ttol, _ = self.setup(case, pspec, with_perts=False, targets=targets0)
             comp_vals = quiet(ttol.apply_compensators)
             want = [float(np.ravel(v)[0]) for v in ttol.evaluate()]
             got = [float(row[n]) for n in names]
